@@ -17,6 +17,14 @@
 //     occupying the machine; such a death is a violation of this clause;
 //  4. no misread: every record returned without error is a record that was written to the file(s)
 //     the mutant derives from.
+//
+// Process structure: the parent writes the valid source files once, then fans batches of inputs
+// out to children. A child persists what it has observed after every input; when it dies the
+// parent reads the (input, call, phase) cursor the child left behind, turns the death into a
+// violation (or retries when the address-space limit bit outside the code under test) and starts
+// a new child that resumes at that input without the fatal call. Allocation violations are named
+// by their allocation site (from the memory profile of a re-execution, or from the traceback of
+// the dead child), so that the same defect has the same signature whichever input reaches it.
 package c04
 
 import (
